@@ -50,8 +50,9 @@ def expand_list(c, lst):
     return out
 
 
-def canon(c, t):
-    """flat tuple of tokens; holes/joins are structured tokens"""
+def canon(c, t, depth=0):
+    """flat tuple of tokens; holes/joins are structured tokens.  Bound round variables
+    are renamed to J<depth> (alpha-normal form)."""
     out = []
     for p in as_tmpl(t).parts:
         if isinstance(p, str):
@@ -59,23 +60,24 @@ def canon(c, t):
         elif isinstance(p, Hole):
             out.append(("hole", tagstr(p.tag), p.kind))
         elif isinstance(p, Fn):
-            out.append(("fn", p.name, canon(c, p.base), tuple(map(repr, p.args))))
+            out.append(("fn", p.name, canon(c, p.base, depth), tuple(map(repr, p.args))))
         elif isinstance(p, Join):
             items = expand_list(c, p.items)
-            sep = canon(c, p.sep)
+            sep = canon(c, p.sep, depth)
             if not any(isinstance(x, Seg) for x in items):
                 for i, x in enumerate(items):
                     if i:
                         out.extend(sep)
-                    out.extend(canon(c, x))
+                    out.extend(canon(c, x, depth))
             else:
                 its = []
                 for x in items:
                     if isinstance(x, Seg):
-                        its.append(("seg", str(z3.simplify(zint(x.length))), x.rev, str(x.jvar),
-                                    tuple(canon(c, i) for i in x.items)))
+                        J = z3.Int(f"J{depth}")
+                        its.append(("seg", str(z3.simplify(zint(x.length))), x.rev, str(J),
+                                    tuple(canon(c, ops.subst_j(i, x.jvar, J), depth + 1) for i in x.items)))
                     else:
-                        its.append(("item", canon(c, x)))
+                        its.append(("item", canon(c, x, depth)))
                 out.append(("join", sep, tuple(its)))
     return tuple(out)
 
